@@ -489,6 +489,27 @@ def lowercase_growth_history(hid, rng, lowered_len, kind):
         p.question(labs(lab, "_x", "_tcp", "local"), 255, 1)
         p.question(labs(lab, "local"), 255, 1)
         dgs.append(dg(p.finish(flags=0)))
+    elif kind == "peer":
+        # a peer announces an instance of the type browsed by the setup step; its SRV target
+        # (and optionally its instance label) grows when lower-cased; short ADDRESS TTLs so that
+        # the refresh of the browsed hosts' addresses happens inside the history
+        inst_lab = grow_label(rng, rng.choice([30, 62, 63, lowered_len])) if rng.random() < 0.5 else "remote"
+        inst = labs(inst_lab) + GOOD_LABS
+        long_ttl = rng.choice([120, 4500])
+        p = Packet(compress=rng.random() < 0.7)
+        p.rr(1, GOOD_LABS, 12, 1, long_ttl, rd_ptr(inst))
+        p.rr(rng.choice([1, 3]), inst, 33, 0x8001, long_ttl, rd_srv(0, 0, 80, labs(lab, "local")))
+        p.rr(rng.choice([1, 3]), inst, 16, 0x8001, long_ttl, rd_bytes(b"\x00"))
+        p.rr(rng.choice([1, 3]), labs(lab, "local"), 1, 0x8001, ttl, rd_bytes(bytes([192, 168, 1, 79])))
+        if rng.random() < 0.4:
+            p.rr(3, labs(lab, "local"), 28, 0x8001, ttl, rd_bytes(bytes.fromhex("fe80" + "00" * 13 + "79")))
+        dgs.append(dg(p.finish(flags=0x8400)))
+        if rng.random() < 0.6:
+            calls.append({"op": "resolve_hostname", "host": lab + ".local.", "ch": "g0"})
+        if rng.random() < 0.4:
+            calls.append({"op": "resolve_hostname", "host": lab.lower() + ".local.", "ch": "g2"})
+        if rng.random() < 0.3:
+            calls.append({"op": "verify", "name": inst_lab + "." + GOOD_TY, "timeout": 1000})
     else:  # subtype
         sub = grow_label(rng, lowered_len, "_")
         calls.append({"op": "register", "svc": {"ty": sub + "._sub._x._tcp.local.", "name": "subbed", "host": GOOD_HOST, "ips": "192.168.1.10", "port": 82}})
@@ -496,7 +517,7 @@ def lowercase_growth_history(hid, rng, lowered_len, kind):
         p = Packet()
         p.rr(1, labs(sub, "_sub", "_x", "_tcp", "local"), 12, 1, ttl, rd_ptr(labs("remote", "_x", "_tcp", "local")))
         dgs.append(dg(p.finish(flags=0x8400)))
-    steps = [{"dt": 0, "calls": calls}, {"dt": 100, "dgrams": dgs}]
+    steps = [{"dt": 0, "calls": calls}, {"dt": 100, "dgrams": dgs}] if calls else [{"dt": 100, "dgrams": dgs}]
     if rng.random() < 0.5:
         steps.append({"dt": 1200, "dgrams": dgs})
     return history(hid, steps, settle_ms=9000)
@@ -504,13 +525,13 @@ def lowercase_growth_history(hid, rng, lowered_len, kind):
 
 def lowercase_growth_cases(rng, n_random):
     cs = []
-    for kind in ("resolve", "browse", "verify", "register", "subtype"):
+    for kind in ("resolve", "browse", "verify", "register", "subtype", "peer", "peer"):
         for ll in (62, 63, 64, 90):
             for rep in range(2):
                 cs.append(Case(lowercase_growth_history("lg-%s-%d-%d" % (kind, ll, rep), rng, ll, kind), "lowercase-growth"))
     for i in range(n_random):
         cs.append(Case(lowercase_growth_history("lg-rand-%d" % i, rng, rng.choice([30, 60, 61, 62, 63, 64, 65, 66, 75, 89, 90]),
-                                                rng.choice(["resolve", "resolve", "browse", "verify", "register", "subtype"])), "lowercase-growth"))
+                                                rng.choice(["resolve", "resolve", "browse", "verify", "register", "subtype", "peer", "peer", "peer"])), "lowercase-growth"))
     return cs
 
 
